@@ -14,6 +14,9 @@
 (* error status and changes nothing (the sequence continues and the archive is       *)
 (* complete); a call during which a callback failed returns an error; without        *)
 (* fault every call succeeds and the archive is the ArchiveMap of the calls.         *)
+(* FRAME: the state of this machine is PER HANDLE.  Nothing a behaviour does - creations, faults, closes - may be felt by   *)
+(* another archive of the same process: the replay runs every behaviour next to a bystander archive created before the      *)
+(* behaviour's first call, with a file left open across all of it, fed and closed after its last call and then decoded.     *)
 EXTENDS Integers, Sequences, FiniteSets, TLC
 CONSTANTS Templates,     \* sequences of abstract calls
           FaultKinds, Schedules,
